@@ -89,6 +89,8 @@ def gen(spec, t, depth, al, cfg, path=""):
             }
         if n in spec.structs and depth <= cfg.max_depth:
             return _obj(spec, spec.flat_props(n), depth, al, cfg, t0, n, path)
+        if n == "LSPAny" and depth <= cfg.max_depth:
+            return any_desc(al, cfg, t0, path)
         return {"k": "opaque", "type": t0}
     if k in ("literal", "and") and depth <= cfg.max_depth:
         return _obj(spec, spec.obj_props(t), depth, al, cfg, t0, None, path)
@@ -111,6 +113,22 @@ def gen(spec, t, depth, al, cfg, path=""):
         es = [gen(spec, i, depth + 1, al, cfg, path + "(%d)" % j) for j, i in enumerate(t["items"])]
         return {"k": "list", "elems": es, "bits": [None] * len(es), "type": t0, "tuple": True}
     return {"k": "opaque", "type": t0}
+
+
+def any_desc(al, cfg, t0, path=""):
+    """an LSPAny payload: symbolic over the JSON kinds, including the falsy values of each kind ("" / 0 / false / [] / {} / null
+    are reachable), resolved lazily - the alternative bits are only forked on if the code under test reads the value"""
+    s = {"k": "prim", "json": "str", "type": None, "sym": ("s", al.str_(cfg.str_len)), "sample": "s"}
+    i = {"k": "prim", "json": "int", "type": None, "sym": ("i", al.int_()), "sample": 1}
+    b = {"k": "prim", "json": "bool", "type": None, "sym": ("b", al.bit(path + ":any-bool")), "sample": False}
+    f = {"k": "prim", "json": "float", "type": None, "sym": None, "sample": 2.5}
+    m = {"k": "map", "items": {"k0": {"k": "prim", "json": "str", "type": None, "sym": None, "sample": "v"}}, "type": None}
+    l = {"k": "list", "elems": [dict(f)], "bits": [None], "type": None}
+    em = {"k": "map", "items": {}, "type": None}
+    el = {"k": "list", "elems": [], "bits": [], "type": None}
+    nu = {"k": "null", "type": None}
+    alts = [s, i, b, f, m, l, em, el, nu]
+    return {"k": "alt", "alts": alts, "bits": [al.bit(path + ":any-kind%d" % j) for j in range(len(alts) - 1)], "type": t0, "any": True}
 
 
 def _obj(spec, props, depth, al, cfg, t0, name, path):
@@ -158,7 +176,7 @@ def valid(spec, d, env, t):
             return False
         if d["json"] not in spec.kinds(t):
             return False
-        if d["json"] == "int" and t["name"] == "uinteger" and spec.expand(d["type"])["name"] != "uinteger":
+        if d["json"] == "int" and t["name"] == "uinteger" and (d["type"] is None or spec.expand(d["type"]).get("name") != "uinteger"):
             v = materialize(d, env)
             return v >= 0
         return True
